@@ -92,10 +92,19 @@ Fixpoint accrual_parts (desc : str) (targets : option (list commodity)) (acc : a
     :: accrual_parts desc targets acc p amount rem n (i + 1) rest
   end.
 
+(* Which postings of the original transaction are re-booked against the accrual account on the
+   original date.  The pinned transaction.go tests [p.Account.IsAL()], so postings on Equity
+   accounts are neither re-booked nor split: they vanish (finding C10-equity-dropped, DESIGN F7).
+   The repaired code tests [!p.Account.IsIE()].  Everything below is parameterised by this
+   predicate; the unsuffixed names are the PINNED behaviour (what Cli.v / the C01 driver run),
+   the [_fixed] names are the repaired behaviour that Properties/C10.v is proved about. *)
+Definition rebook_pinned (a : account) : bool := is_AL a.
+Definition rebook_fixed (a : account) : bool := negb (is_IE a).
+
 (* the body of the loop in transaction.expand for one posting *)
-Definition expand_posting (t : txn) (ac : accrual) (p : posting) : mresult (list txn) :=
+Definition expand_posting_gen (rebook : account -> bool) (t : txn) (ac : accrual) (p : posting) : mresult (list txn) :=
   let r1 :=
-    if is_AL (p_acc p)
+    if rebook (p_acc p)
     then [mkTxn (t_date t) (t_desc t) (pair_build (ac_account ac) (p_acc p) (p_com p) (p_qty p) dec_nil) (t_targets t)]
     else [] in
   if is_IE (p_acc p) then
@@ -112,26 +121,38 @@ Definition expand_posting (t : txn) (ac : accrual) (p : posting) : mresult (list
     end
   else MOk r1.
 
-Fixpoint expand_postings (t : txn) (ac : accrual) (ps : list posting) : mresult (list txn) :=
+Fixpoint expand_postings_gen (rebook : account -> bool) (t : txn) (ac : accrual) (ps : list posting) : mresult (list txn) :=
   match ps with
   | [] => MOk []
   | p :: rest =>
-    mbind (expand_posting t ac p) (fun l1 =>
-    mbind (expand_postings t ac rest) (fun l2 => MOk (l1 ++ l2)))
+    mbind (expand_posting_gen rebook t ac p) (fun l1 =>
+    mbind (expand_postings_gen rebook t ac rest) (fun l2 => MOk (l1 ++ l2)))
   end.
 
 (* transaction.expand *)
-Definition expand (t : txn) (ac : accrual) : mresult (list txn) :=
-  mbind (check_account (ac_account ac)) (fun _ => expand_postings t ac (t_postings t)).
+Definition expand_gen (rebook : account -> bool) (t : txn) (ac : accrual) : mresult (list txn) :=
+  mbind (check_account (ac_account ac)) (fun _ => expand_postings_gen rebook t ac (t_postings t)).
 
 (* transaction.Create *)
-Definition txn_create (s : stxn) : mresult (list txn) :=
+Definition txn_create_gen (rebook : account -> bool) (s : stxn) : mresult (list txn) :=
   mbind (postings_create (st_bookings s)) (fun ps =>
   let t := mkTxn (st_date s) (st_desc s) ps (st_targets s) in
   match st_accrual s with
-  | Some ac => expand t ac
+  | Some ac => expand_gen rebook t ac
   | None => MOk [t]
   end).
+
+(* pinned tree *)
+Definition expand_posting := expand_posting_gen rebook_pinned.
+Definition expand_postings := expand_postings_gen rebook_pinned.
+Definition expand := expand_gen rebook_pinned.
+Definition txn_create := txn_create_gen rebook_pinned.
+
+(* repaired (findings/C10-equity-dropped.patch) *)
+Definition expand_posting_fixed := expand_posting_gen rebook_fixed.
+Definition expand_postings_fixed := expand_postings_gen rebook_fixed.
+Definition expand_fixed := expand_gen rebook_fixed.
+Definition txn_create_fixed := txn_create_gen rebook_fixed.
 
 Fixpoint check_balances (bs : list balance) : mresult unit :=
   match bs with
